@@ -454,4 +454,49 @@ func init() {
 		Assumptions: append([]string{"CalculatePower replaced by an uninterpreted function of the selection (cut; DESIGN §4 C10)", "the contract of sort.Slice (result sorted w.r.t. less) is trusted for the first element"}, commonAssumptions...),
 		Explanation: "GetAllPossibleCombinations / GetAllPowersByPlayer / CalculatePlayerPower / UpdateCombinationOfAllPlayers executed symbolically with symbolic scores; admissible selections enumerated independently from the rules",
 	})
+
+	register(&PropSpec{
+		ID: "C07", Pkgs: []string{"table"},
+		Jobs: func(tier string) []sym.Job {
+			var js []sym.Job
+			maxN := 3
+			if tier == "thorough" {
+				maxN = 4
+			}
+			for n := 2; n <= maxN; n++ {
+				for street := 0; street < 4; street++ {
+					if tier != "thorough" && n == 3 && (street == 1 || street == 2) {
+						continue
+					}
+					for cur := 0; cur < n; cur++ {
+						if tier != "thorough" && n == 3 && cur == 2 {
+							continue
+						}
+						for op := 0; op < 10; op++ {
+							js = append(js, sym.Job{Pkg: "table", Harness: "Harness_C07", Args: []int{n, street, 0, cur, op}})
+						}
+					}
+					for _, op := range []int{8, 9, 2, 11} {
+						js = append(js, sym.Job{Pkg: "table", Harness: "Harness_C07", Args: []int{n, street, 1, 0, op}})
+					}
+					for _, op := range []int{9, 8, 0, 10} {
+						js = append(js, sym.Job{Pkg: "table", Harness: "Harness_C07", Args: []int{n, street, 2, 0, op}})
+					}
+				}
+			}
+			return js
+		},
+		AssertPrefix: []string{"C07."},
+		Covers:       func(tier string) []string { return []string{"C07.accepted", "C07.refused"} },
+		Bounds: func(tier string) []string {
+			n := "n=2 every street, n=3 preflop and river (seats 0,1 to act)"
+			if tier == "thorough" {
+				n = "n in 2..4, every street, every seat to act"
+			}
+			return []string{n, "wait points RoundStarted (every action incl. bet/raise/pay with |amount| < 2^42), ReadyRequested (ReadyForAll), RoundClosed (Next incl. dealing, evaluation on the concrete deck and settlement), plus operations in the wrong phase", "chip accounts, flags, stakes symbolic (< 2^40) as in the engine step harnesses; in-memory copy carries the unserialized Pot.Levels"}
+		},
+		Outside:     []string{"the reflection-based implementation of encoding/json itself (modelled by its documented contract from the current struct tags; validated by native replays, which run the real encoding/json)", "AnteRequested / BlindsRequested wait points (covered for the in-memory engine by C13; the backend wrappers have the same shape)", "the table layer above the backend (goroutines, timers)"},
+		Assumptions: append([]string{"encoding/json Marshal+Unmarshal = tag-driven structural clone (engine/sym/models_json.go)", "time.Now arbitrary; UpdatedAt excluded from the comparison as the statement says"}, commonAssumptions...),
+		Explanation: "relational step harness: in-memory game vs. table.NativeBackend (real cloneState/NewGameFromState/op/cloneState) from the same symbolic wait-point state",
+	})
 }
